@@ -22,6 +22,7 @@ pub static KEY_SENT_FUNDS: &[u8] = b"sent-funds";
 pub static KEY_TMP_SWAP: &[u8] = b"tmp-swap";
 pub static KEY_TMP_LIQUIDATOR: &[u8] = b"tmp-liquidator";
 pub static KEY_VAMM_MAP: &[u8] = b"vamm-map";
+pub static KEY_LAST_REMOVAL: &[u8] = b"last-removal";
 
 #[derive(Serialize, Deserialize, Clone, Debug, PartialEq, Eq, JsonSchema)]
 pub struct Config {
@@ -81,7 +82,11 @@ pub fn store_position(storage: &mut dyn Storage, position: &Position) -> StdResu
     position_bucket(storage).save(&hash, position)
 }
 
-pub fn remove_position(storage: &mut dyn Storage, position: &Position) {
+pub fn remove_position(
+    storage: &mut dyn Storage,
+    position: &Position,
+    block_height: u64,
+) -> StdResult<()> {
     // hash the vAMM and trader together to get a unique position key
     let mut hasher = Sha3_256::new();
 
@@ -93,7 +98,26 @@ pub fn remove_position(storage: &mut dyn Storage, position: &Position) {
     let hash = hasher.finalize();
 
     // remove the position stored under the key
-    position_bucket(storage).remove(&hash)
+    position_bucket(storage).remove(&hash);
+
+    // the record carried the block of the trader's last action, which restriction mode needs
+    // for the rest of this block: keep it under the same key
+    bucket(storage, KEY_LAST_REMOVAL).save(&hash, &block_height)
+}
+
+/// The block in which the trader's position on the vamm was last removed (closed or liquidated)
+pub fn read_last_removal_block(storage: &dyn Storage, vamm: &Addr, trader: &Addr) -> u64 {
+    let mut hasher = Sha3_256::new();
+
+    hasher.update(vamm.as_bytes());
+    hasher.update(trader.as_bytes());
+
+    let hash = hasher.finalize();
+
+    bucket_read::<u64>(storage, KEY_LAST_REMOVAL)
+        .may_load(&hash)
+        .unwrap_or_default()
+        .unwrap_or_default()
 }
 
 pub fn read_position(storage: &dyn Storage, vamm: &Addr, trader: &Addr) -> StdResult<Position> {
